@@ -517,42 +517,53 @@ theorem coord_option_table_tbl :
 
 /-! ## agreement of the verb with a coordinated subject -/
 
-/-- **C09.agreement** `S(CP(…), VP(V))`: the verb is conjugated with the lowest person of the members and is plural
-    exactly when the property says so -/
+/-- **C09.agreement** `S(CP(…), VP(V))` (the verb's own record holds its defaults: third person singular): the verb
+    is conjugated with the lowest person of the members and is plural exactly when the property says so -/
 def coord_subject_agreement : Prop :=
-  ∀ (pt : Str → Str) (andC : Str) (conj : Option Conj) (ms : List Member), ValidPe ms →
-    ∃ o, sCP pt andC conj ms = .ok o ∧ IsMinPerson o.pe ms ∧ (o.pl = true ↔ SpecPlural (isAndCP andC conj) ms)
+  ∀ (pt : Str → Str) (andC : Str) (conj : Option Conj) (ms : List Member) (g0 : Option Str), ValidPe ms →
+    ∃ o, sCP pt andC conj ms { pe := some (.int 3), n := some sing, g := g0 } = .ok o ∧
+      IsMinPerson o.pe ms ∧ (o.pl = true ↔ SpecPlural (isAndCP andC conj) ms)
 
-/-- witness: `S(CP(), VP(V("sleep")))` — the empty CP has no `peng`: AttributeError -/
+/-- witness: `S(CP(C("or"), NP(the cat), CP(C("and"), …)), VP(V))`: the nested CP is not counted,
+    “The cat or you and the dogs sleeps” -/
 theorem coord_subject_agreement_refuted : ¬ coord_subject_agreement := by
   intro h
-  obtain ⟨o, ho, _⟩ := h ptEn (s "and") none [] (by decide)
-  have e : sCP ptEn (s "and") none [] = .error Crash.attributeError := rfl
+  obtain ⟨o, ho, _, hpl⟩ := h ptEn (s "and") (some orConj) [mkNP [s "the", s "cat"] none, nestedCP] none (by decide)
+  have e : sCP ptEn (s "and") (some orConj) [mkNP [s "the", s "cat"] none, nestedCP]
+      { pe := some (.int 3), n := some sing, g := none }
+      = .ok (afterCoord { toks := [s "the", s "cat", s "or", s "you", s "and", s "the", s "dogs"],
+                          peng := { pe := some (.int 3), n := none, g := some (s "n") } }) := rfl
   rw [e] at ho
-  cases ho
+  have : o = _ := (Except.ok.inj ho).symm
+  subst this
+  revert hpl
+  decide
 
 theorem coord_subject_agreement_partial :
-    ∀ (pt : Str → Str) (andC : Str) (conj : Option Conj) (ms : List Member), ValidPe ms →
-      (conj.isSome ∨ ms ≠ []) → Resolvable ms →
-      ∃ o, sCP pt andC conj ms = .ok o ∧ IsMinPerson o.pe ms ∧ (o.pl = true ↔ SpecPlural (isAndCP andC conj) ms) := by
-  intro pt andC conj ms hv hc hr
-  obtain ⟨o, ho⟩ := (coord_no_exception_holds pt andC conj andTerm ms {} hv).1
-  have hne : ¬ (conj.isNone ∧ ms.isEmpty) := by
-    rintro ⟨h1, h2⟩
-    rcases hc with h | h
-    · cases conj <;> simp_all
-    · cases ms <;> simp_all
-  refine ⟨afterCoord o, by simp only [sCP, if_neg hne, ho], ?_, ?_⟩
-  · by_cases hms : ms = []
-    · subst hms
-      simp only [cpReal, Except.ok.injEq] at ho
-      subst ho
-      rw [afterCoord_pe_none _ rfl]
-      simp [IsMinPerson]
-    · obtain ⟨p, hp, hmin⟩ := coord_person_min_partial pt andC conj ms o hms hv hr ho
-      rw [afterCoord_pe o p hp]; exact hmin
-  · rw [afterCoord_pl]
-    exact coord_number_iff_partial pt andC conj ms o hr ho
+    ∀ (pt : Str → Str) (andC : Str) (conj : Option Conj) (ms : List Member) (g0 : Option Str), ValidPe ms →
+      Resolvable ms →
+      ∃ o, sCP pt andC conj ms { pe := some (.int 3), n := some sing, g := g0 } = .ok o ∧
+        IsMinPerson o.pe ms ∧ (o.pl = true ↔ SpecPlural (isAndCP andC conj) ms) := by
+  intro pt andC conj ms g0 hv hr
+  by_cases hne : conj.isNone ∧ ms.isEmpty
+  · have hms : ms = [] := by simpa using hne.2
+    subst hms
+    refine ⟨afterCoord { toks := [], peng := { pe := some (.int 3), n := some sing, g := g0 } },
+      by simp only [sCP, if_pos hne], ?_, ?_⟩
+    · simp [afterCoord, verbView, Rec.peN, PeVal.nat?, IsMinPerson]
+    · simp [afterCoord, verbView, SpecPlural, sing, plural]
+  · obtain ⟨o, ho⟩ := (coord_no_exception_holds pt andC conj andTerm ms {} hv).1
+    refine ⟨afterCoord o, by simp only [sCP, if_neg hne, ho], ?_, ?_⟩
+    · by_cases hms : ms = []
+      · subst hms
+        simp only [cpReal, Except.ok.injEq] at ho
+        subst ho
+        rw [afterCoord_pe_none _ rfl]
+        simp [IsMinPerson]
+      · obtain ⟨p, hp, hmin⟩ := coord_person_min_partial pt andC conj ms o hms hv hr ho
+        rw [afterCoord_pe o p hp]; exact hmin
+    · rw [afterCoord_pl]
+      exact coord_number_iff_partial pt andC conj ms o hr ho
 
 def coord_subject_agreement_dep : Prop :=
   ∀ (pt : Str → Str) (andC : Str) (t : Term) (ms : List Member) (g0 : Option Str), ValidPe ms →
@@ -671,9 +682,9 @@ example : (cpReal ptEn (s "and") (some andConj) [mkNP [s "the", s "cat"] (some [
 example : specToks ptEn (some [s "and"]) [theCat, theDog, theBirds]
     = [s "the", s "cat, ", s "the", s "dog", s "and", s "the", s "birds"] := by decide
 -- “me or you”: first person, singular ; “me and you”: first person, plural
-example : (sCP ptEn (s "and") (some orConj) [mkPro (s "me") 1 (s "s") (s "m"), mkPro (s "you") 2 (s "s") (s "m")]).toOption.map
+example : (sCP ptEn (s "and") (some orConj) [mkPro (s "me") 1 (s "s") (s "m"), mkPro (s "you") 2 (s "s") (s "m")] {}).toOption.map
     (fun o => (o.pe, o.pl)) = some (1, false) := by decide
-example : (sCP ptEn (s "and") (some andConj) [mkPro (s "me") 1 (s "s") (s "m"), mkPro (s "you") 2 (s "s") (s "m")]).toOption.map
+example : (sCP ptEn (s "and") (some andConj) [mkPro (s "me") 1 (s "s") (s "m"), mkPro (s "you") 2 (s "s") (s "m")] {}).toOption.map
     (fun o => (o.pe, o.pl)) = some (1, true) := by decide
 example : ResolvableDep andTerm [mkSubj [s "the", s "cat"] none, mkSubj [s "the", s "dog"] none]
     ∧ Consistent [mkSubj [s "the", s "cat"] none, mkSubj [s "the", s "dog"] none] ∧ TermOK andTerm
